@@ -17,7 +17,7 @@ def h_log_setupStderr : Nat := 0xed53154efdd5d062
 def h_log_setupScript : Nat := 0x184f66e6e65f3d09
 
 /-- hash of the normalised skeleton of setupExec (internal/dag/scheduler/node.go) -/
-def h_log_setupExec : Nat := 0xcb50177850a7c84a
+def h_log_setupExec : Nat := 0xcfa69c496e6e333d
 
 /-- hash of the normalised skeleton of teardown (internal/dag/scheduler/node.go) -/
 def h_log_teardown : Nat := 0xf5debaeff168a37c
